@@ -251,7 +251,15 @@ def gen(args):
         if rec is not None:
             rec["src"] = "heavy terminal atoms"
         return rec if rec is not None else {"__none__": True, "meta": {}}
+    if nmols == 2 and rng.random() < 0.5:
+        sizes = (sizes[0],) if isinstance(sizes, tuple) and len(sizes) else sizes       # two molecules of one size
     rec = xtal.gen_molecular(rng, row, nmols=nmols, sizes=sizes)
+    if rec is not None and len(rec["mols"]) >= 2 and rng.random() < 0.7:
+        # atom names as macromolecular files give them: the same names in every molecule (O1 H2 H3 | O1 H2 H3)
+        for mol in rec["mols"]:
+            for k, i in enumerate(mol):
+                rec["asym"][i - 1]["label"] = "A%d" % (k + 1)
+        rec["src"] = "atom names repeated in every molecule"
     return rec if rec is not None else {"__none__": True, "meta": {}}
 
 
